@@ -62,6 +62,14 @@ package openapi
 //@   property C17
 //@   requires userTypesOK(tt)
 //@   modifies nothing
+// "every user type is a component": Each stops at the first error of its callback and newSchemas drops that error, so the
+// callback must never return one (a type the converter cannot express panics instead - the error of the export, see above)
+//@ func newSchemas$1(name, ut)
+//@   property C17
+//@   attr assumesafe
+//@   requires ut != nil && esOK(ut.Schema) && len(name) >= 1 && ss != nil && *ss != nil
+//@   modifies (*ss)[:]
+//@   ensures[C17,@user-type-not-skipped] result == nil
 
 // responses that share a status code (C17, panic clause)
 //@ pred responsesOK(rr []*catalog.HTTPResponse) := 0 <= rr.off && forallp(j, at(rr, j),
